@@ -150,7 +150,7 @@ func (ex *Exec) runPath(spec *HarnessSpec, prefix []Decision) {
 	ex.mapPerm = false
 	ex.mapFixed = false
 	ex.randQueue = nil
-	ex.schedAtomics = false
+	ex.schedAtomics = spec.Opts["atomics"] == "sched" // atomic operations are scheduling points too
 	ex.hasRefs = false
 	ex.syncTab = nil
 	ex.obsTerms = nil
